@@ -91,6 +91,8 @@ type Cluster struct {
 	// RespHook (tier W) may replace the response and the cells of a successfully executed
 	// single-row operation: structurally valid answers with odd contents
 	RespHook func(kind string, row []byte, resp proto.Message, cells []KV) (proto.Message, []KV)
+	// MetaHook (tier W) may replace the cells of the row answering a region lookup
+	MetaHook func(startRow []byte, cells []KV) []KV
 	// StaleRows: rows of regions that no longer exist which hbase:meta still holds (Offline)
 	StaleRows []*Region
 	Silent     map[string]bool     // server accepts requests but never answers
